@@ -165,6 +165,13 @@ F4 == {Sc(<<Fr("call", m, NoFl, "known", <<St("final", <<>>, "")>>, "nil", 1), R
       \* the flags of a call do not change where it goes, nor what follows on the connection
       \cup {Sc(<<Fr("call", m, fl, "known", <<St("final", <<>>, "")>>, "nil", 1), RInfo>>, <<2, 2>>, "halfclose") :
                m \in Strs({".", "a", "b"}, 3) \cup {OVS \o <<".", "x">>, OVS \o <<".">> \o GETINFO, <<"a", ".", "b", ".", "M">>}, fl \in {UpFl, MoreFl}}
+      \* routing has no memory: where a call goes does not depend on where the call before it went - interface names
+      \* that extend one another by further segments (a.b / a.b.c / a.b.c.d), are near one another, or are not registered
+      \cup {Sc(<<Fr("call", m1, NoFl, "known", <<St("final", <<>>, "")>>, "nil", 1), Fr("call", m2, NoFl, "known", <<St("final", <<>>, "")>>, "nil", 1), RInfo>>,
+                <<2, 2, 2>>, "halfclose") :
+               m1 \in {<<"a",".","b",".","M">>, <<"a",".","b",".","c",".","M">>, <<"a",".","M">>, <<"a",".","B",".","M">>},
+               m2 \in {<<"a",".","b",".","M">>, <<"a",".","b",".","c",".","M">>, <<"a",".","b",".","x",".","M">>, <<"a",".","b",".","c",".","d",".","M">>,
+                        <<"a",".","b","b",".","M">>, <<"a",".","b",".",".","M">>, <<"a",".","M">>, <<"a",".","b">>, <<"a",".","b",".","c">>, <<"a",".","B",".","x",".","M">>}}
 TRegA == {<<"a",".","b">>, <<"a",".","b",".","c">>}
 TRegB == {<<"a">>, <<"a",".","b",".","c",".","d">>, <<"a",".","U1">>, <<"a",".","B">>}
 TRegC == {}
